@@ -735,8 +735,21 @@ def drive_inflight(case):
                 return r
         return None
 
-    if case.get("echo") and any(op[0] not in ("assign", "save") and op[1] in {p[1] for p in case["pre"]}
-                                for op in case["during"]):
+    def _edit_in_flight_then_echo():
+        # names carried by an unanswered SETCONF: the first save carries the pre-ops' options for the whole "during"
+        # phase; a second save (the ["save"] marker) additionally carries what was changed before it
+        flying = {p[1] for p in case["pre"]}
+        changed = set()
+        for op in case["during"]:
+            if op[0] == "save":
+                flying |= changed
+                continue
+            if op[0] != "assign" and op[1] in flying:
+                return True
+            changed.add(op[1])
+        return False
+
+    if case.get("echo") and _edit_in_flight_then_echo():
         # a list is edited in place while the SETCONF carrying that same option is unanswered, and Tor then
         # announces (CONF_CHANGED) the value it stored: local edit and announcement conflict, and which of the two
         # the view should show afterwards is not defined by the statement -> excluded by construction
@@ -791,11 +804,18 @@ def drive_inflight(case):
     if hold["held"] and w1.succeeded != case["accept"]:
         res.bad("save-outcome-wrong", "Tor %s, save() -> %r" % ("accepted" if case["accept"] else "refused", w1.outcome()))
         return res
+    # which assignments are still unacknowledged after Tor's answer(s)
+    d_ops = case["during"]
+    marker = next((i for i, op in enumerate(d_ops) if op[0] == "save"), None) if second["w"] is not None else None
+    before = d_ops if marker is None else d_ops[:marker]
+    after_marker = [] if marker is None else d_ops[marker + 1:]
+    asg = lambda ops: {op[1] for op in ops if op[0] == "assign"}
     if case["accept"]:
-        assigned_pending.difference_update(
-            {op[1] for op in case["pre"] if op[0] == "assign"} - {op[1] for op in case["during"] if op[0] == "assign"})
-    if second["w"] is not None:
-        assigned_pending.clear() if (case["accept"] and case.get("accept2", True)) else None
+        assigned_pending.difference_update(asg(case["pre"]) - asg(d_ops))
+    if marker is not None and case.get("accept2", True):
+        # the second SETCONF carried everything pending when it was built: pre-ops refused by the first answer are
+        # NOT in it (they were in flight then), during-ops before the marker are
+        assigned_pending.difference_update(asg(before) - asg(after_marker))
     r = run_ops(case["after"], "after")
     if r == "ambiguous":
         res.excluded.append("in-place-edit-while-assignment-pending")
